@@ -162,6 +162,12 @@ func (c *c11) emitBuild(p protocol.Protocol, cfg, label, info string, br buildRe
 			desc["panic"] = ppan
 			br.pan = ppan
 		} else if perr == nil {
+			// every limit is inclusive: the same request under a protocol whose maximum operation size is exactly its size
+			pe := p
+			pe.MaxOperationSize = uint(len(br.req))
+			if _, e := operationparser.New(pe, operationparser.WithAnchorTimeValidator(clockTV{now: 3000})).Parse("did:sidetree", br.req); e != nil {
+				c.r.Direct = append(c.r.Direct, out.Direct{Oracle: "accepted_at_exactly_the_maximum_operation_size", What: e.Error(), Case: desc})
+			}
 			outcome = "accepted"
 			parsed = "(Some " + emit.App("ROp", tyName2(op.Type), emit.Hex([]byte(op.UniqueSuffix))) + ")"
 			mop, merr := parser.ParseOperation("did:sidetree", br.req, false)
